@@ -72,13 +72,17 @@ def state_digest(d):
             out[a] = int(getattr(d, a))
     if hasattr(d, '_population') and hasattr(d._population, 'xs'):
         out['population_size'] = int(len(d._population))
-        out['population_xs'] = np.asarray(d._population.xs).round(12).tolist()
+        for f in ('xs', 'ys', 'cs', 'ages', 'generations', 'ids'):       # bit-exact: float.__repr__ round-trips
+            if hasattr(d._population, f):
+                out['population_' + f] = [repr(float(v)) for v in np.asarray(getattr(d._population, f), dtype=np.float64).ravel()]
     if hasattr(d, '_firefly_pool'):
         fp = d._firefly_pool
         out['pool_size'] = int(fp.size)
         out['pool_ids'] = sorted(int(k) for k in fp._pool)
         out['pool_last_id'] = int(fp._last_id)
         out['pool_max_fly_id'] = int(fp._max_fly_id)
+        out['pool_flies'] = [[int(k), repr(float(f.perturbation)), int(f.generation),
+                              sorted((n, repr(v.value)) for n, v in f.trial.parameters.items())] for k, f in sorted(fp._pool.items())]
     if hasattr(d, '_trial_population'):
         out['cma_queue'] = int(d._trial_population.qsize())
         rows = []
